@@ -279,7 +279,7 @@ for p in (1, 6, 11):
 
 STUB_IRQ = [("crate::cpu::interrupt_controller::InterruptController::request_interrupt", "crate::harness::c17::ghost_request_interrupt")]
 add("C17", "c17_update_step_64", "c17::update_step($S, 64)", stubs=(STUB_IRQ,), unwind=42, timeout=1500)
-add("C17", "c17_update_step_255", "c17::update_step($S, 255)", stubs=(STUB_IRQ,), unwind=42, timeout=3000, tier="thorough")
+add("C17", "c17_update_step_255", "c17::update_step($S, 255)", stubs=(STUB_IRQ,), unwind=42, timeout=3000, tier="thorough", note="36 min measured")
 add("C17", "c17_tcr_write_keeps_phase", "c17::tcr_write_keeps_phase($S)")
 add("C17", "c17_partition_lemma", "c17::partition_lemma($S)")
 
